@@ -49,12 +49,17 @@ func canonChan(v ssa.Value, depth int) ssa.Value {
 }
 
 // addrKey identifies an address expression structurally: Alloc, or FieldAddr(base, i).
-func addrKey(a ssa.Value) string {
+func addrKey(a ssa.Value) string { return addrKeyD(a, 0) }
+
+func addrKeyD(a ssa.Value, d int) string {
+	if d > 12 {
+		return ""
+	}
 	switch x := a.(type) {
 	case *ssa.Alloc:
 		return fmt.Sprintf("alloc%p", x)
 	case *ssa.FieldAddr:
-		b := addrKey(x.X)
+		b := addrKeyD(x.X, d+1)
 		if b == "" {
 			return ""
 		}
@@ -62,8 +67,8 @@ func addrKey(a ssa.Value) string {
 	case *ssa.UnOp:
 		if x.Op == token.MUL {
 			// pointer loaded from a local variable holding the struct pointer
-			if st := uniqueStoreTo(x.X); st != nil {
-				return addrKey(st)
+			if st := uniqueStoreToD(x.X, d+1); st != nil {
+				return addrKeyD(st, d+1)
 			}
 		}
 	case *ssa.Parameter:
@@ -74,8 +79,13 @@ func addrKey(a ssa.Value) string {
 	return ""
 }
 
-func uniqueStoreTo(addr ssa.Value) ssa.Value {
-	k := addrKey(addr)
+func uniqueStoreTo(addr ssa.Value) ssa.Value { return uniqueStoreToD(addr, 0) }
+
+func uniqueStoreToD(addr ssa.Value, d int) ssa.Value {
+	if d > 12 {
+		return nil
+	}
+	k := addrKeyD(addr, d+1)
 	if k == "" {
 		return nil
 	}
@@ -90,7 +100,7 @@ func uniqueStoreTo(addr ssa.Value) ssa.Value {
 	n := 0
 	for _, b := range fn.Blocks {
 		for _, ins := range b.Instrs {
-			if st, ok := ins.(*ssa.Store); ok && addrKey(st.Addr) == k {
+			if st, ok := ins.(*ssa.Store); ok && addrKeyD(st.Addr, d+1) == k {
 				val = st.Val
 				n++
 			}
